@@ -49,8 +49,8 @@ var commonAssumptions = []string{
 func init() {
 	register(&Def{
 		ID: "C07", Level: "exploration", MinSigs: 20,
-		Rule:        "(1) twin chains: per shard one history of 60 (thorough 500) blocks WITHOUT any packet addressed to the orbiter account - forged incoming packets to 18 non-orbiter receivers incl. near misses of the orbiter address, memos containing valid and malformed orbiter payloads, PFM-style and 32 KiB memos, random bytes, hostile ICS-20 data, foreign/returning denoms; outgoing MsgTransfer with hostile memos; MsgRecvPacket on the peer end, MsgAcknowledgement and MsgTimeout of those packets; orbiter pause/unpause messages - is executed on the real chain and on a chain whose IBC router holds blockibc(transfer) only: equal AppHash after every block, equal tx code, data, acknowledgement bytes, ordered events, gas. (2) per packet on two branches of one state: entrypoint(transfer) vs transfer alone for arbitrary bytes, bit flips, hostile data and arbitrary port/channel identifiers under random orbiter pause/parameter/dust states: equal acknowledgement bytes, events, digest of all 13 stores. distinct = acknowledgement classes seen on the twin and (envelope class, ack class) of the per-packet part",
-		Assumptions: append([]string{"channel-handshake callbacks are exercised only by the handshakes the world performs", "a packet on which the wrapped ICS-20 application itself panics (without the middleware) is not attributed to the middleware"}, commonAssumptions...),
+		Rule:        "(1) twin chains: per shard one history of 60 (thorough 500) blocks WITHOUT any packet addressed to the orbiter account - forged incoming packets to 18 non-orbiter receivers incl. near misses of the orbiter address, memos containing valid and malformed orbiter payloads, PFM-style and 32 KiB memos, random bytes, hostile ICS-20 data, foreign/returning denoms; outgoing MsgTransfer with hostile memos; MsgRecvPacket on the peer end, MsgAcknowledgement and MsgTimeout of those packets; orbiter pause/unpause messages - is executed on the real chain and on a chain whose IBC router holds blockibc(transfer) only: equal AppHash after every block, equal tx code, data, acknowledgement bytes, ordered events, gas. (2) per packet on two branches of one state: entrypoint(transfer) vs transfer alone for arbitrary bytes, bit flips, hostile data and arbitrary port/channel identifiers under random orbiter pause/parameter/dust states: equal acknowledgement bytes, events, digest of all 13 stores. (3) the same around a stub application that answers nil (asynchronous acknowledgement), success, error or aborts. (4) every other callback - OnChanOpenInit/Try/Ack/Confirm, OnChanCloseInit/Confirm, OnAcknowledgementPacket, OnTimeoutPacket, SendPacket, WriteAcknowledgement, GetAppVersion - with generated arguments (valid and hostile ports, channels, versions, capabilities, packets incl. ones sent by or addressed to the orbiter account, acknowledgement bytes) through middleware(recording stub) vs the stub: identical result, exactly one call with identical arguments at the wrapped side, identical events, gas and store digests; and OnAcknowledgementPacket / OnTimeoutPacket through entrypoint(transfer) vs transfer (real refunds from the escrow): identical error, events, store digests. distinct = acknowledgement classes seen on the twin, (envelope class, ack class) of the per-packet part, (callback, outcome class, argument class)",
+		Assumptions: append([]string{"channel-handshake callbacks are exercised by the handshakes the world performs and, with generated arguments, through a recording stub application (the ICS-20 application itself refuses most generated handshakes)", "a packet on which the wrapped ICS-20 application itself panics (without the middleware) is not attributed to the middleware"}, commonAssumptions...),
 		Run:         withLab(world.Config{}, CheckC07),
 	})
 	register(&Def{
@@ -61,7 +61,7 @@ func init() {
 	})
 	register(&Def{
 		ID: "C03", Level: "fault_enumeration", MinSigs: 100, Exhaustive: true,
-		Rule:        "payload shapes = {CCTP, CCTP with caller, Hyperlane, internal} x {no fee, 1 fee, 5 fees} x {dust on the orbiter account, none}; for each shape a fault-free run on the alternative stack counts the calls at every injection site (bank SendCoins per fee, module-to-module sweep, CCTP DepositForBurn / WithCaller, warp Token and RemoteTransfer, bank Msg/Send, EventManager.Emit per event), then ONE run per (site, k-th call) - complete enumeration of single faults - plus the wrapped application returning an error acknowledgement before and after doing its work (thorough: ordered pairs of sites), each through the bare middleware (mode C) and through the real core MsgRecvPacket handler with the alternative stack installed in the IBC router (mode H); oracle: the wrapper recorded that the fault fired => acknowledgement present and not a success, and ledger, supply, statistics and orbiter store digest unchanged. Natural failures on the native wiring: blacklisted fee/internal recipient, paused token factory, burn limit, domain without messenger, unenrolled router, wrong-denom token, blocked recipient, insufficient escrow, non-burnable denom, gas paymaster without funds. A fault armed but not reached is inconclusive. distinct = (shape, fault, mode, outcome)",
+		Rule:        "payload shapes = {CCTP, CCTP with caller, Hyperlane, internal} x {no fee, 1 fee, 5 fees} x {dust on the orbiter account, none}; for each shape a fault-free run on the alternative stack counts the calls at every injection site (bank SendCoins per fee, module-to-module sweep, CCTP DepositForBurn / WithCaller, warp Token and RemoteTransfer, bank Msg/Send, EventManager.Emit per event), then ONE run per (site, k-th call) - complete enumeration of single faults - plus the wrapped application returning an error acknowledgement before and after doing its work (thorough: ordered pairs of sites), each through the bare middleware (mode C) and through the real core MsgRecvPacket handler with the alternative stack installed in the IBC router (mode H); oracle: the wrapper recorded that the fault fired => acknowledgement present and not a success, and ledger, supply, statistics and orbiter store digest unchanged. Natural failures on the native wiring: blacklisted fee/internal recipient, paused token factory, burn limit, domain without messenger, unenrolled router, wrong-denom token, blocked recipient, insufficient escrow, non-burnable denom, gas paymaster without funds. A fault armed but not reached is inconclusive. Crash points: on the native wiring every shape is first delivered with a gas meter that records the cumulative gas after every consumption (every store read/write of the receive path, ~220 distinct points per shape), then re-delivered once per point k with a gas limit one unit below it (quick: every 6th point, thorough: all), so that the node's own out-of-gas abort strikes at exactly that point: the delivery must abort or be refused, a success acknowledgement is a violation; after every aborted delivery the same packet with unlimited gas on the same state must reproduce the fault-free acknowledgement, events, ledger delta and statistics delta (nothing of an aborted delivery survives in process memory). distinct = (shape, fault, mode, outcome) and (shape, outcome class, decile of the cut point)",
 		Assumptions: append([]string{"faults are errors returned by dependencies, not crashes of the node; store-level write failures cannot be injected without touching the SDK", "exhaustive refers to single faults over the listed shapes and sites"}, commonAssumptions...),
 		Run:         withLab(world.Config{}, CheckC03),
 	})
